@@ -215,3 +215,62 @@ impl QMon {
         }
     }
 }
+
+impl crate::sim::Sim {
+    /// Drives a fresh real queue with an explicit operation list. Transitions are checked by the
+    /// monitor through the same hook as in-situ operations; returned values are checked here.
+    pub fn step_queue_drive(&mut self, ops: &[crate::sim::QOp]) {
+        use aranya_runtime::{SegmentIndex, storage::TraversalQueue};
+
+        use crate::sim::QOp;
+        let loc = |seg: u8, mc: u8| Location::new(SegmentIndex::new(u64::from(seg)), MaxCut::new(u64::from(mc)));
+        let mut q = Box::new(TraversalQueue::new());
+        let mut bad: Option<String> = None;
+        let r = crate::replica::guarded(|| {
+            q.clear();
+            for op in ops {
+                match op {
+                    QOp::Clear => q.clear(),
+                    QOp::Push { seg, mc, covered } => {
+                        let _ = q.push_covered(loc(*seg, *mc), *covered);
+                    }
+                    QOp::PushDup { seg, mc } => {
+                        let _ = q.push_duplicate(loc(*seg, *mc));
+                    }
+                    QOp::Pop => {
+                        let top = q.peek().copied();
+                        match q.pop_covered() {
+                            Ok(got) => {
+                                if got.map(|g| g.0.max_cut) != top.map(|t| t.max_cut) {
+                                    bad = Some(format!("pop returned {got:?} but the highest entry was {top:?}"));
+                                }
+                            }
+                            Err(e) => bad = Some(format!("pop failed: {e}")),
+                        }
+                    }
+                    QOp::PopDups => {
+                        let _ = q.pop_duplicates();
+                    }
+                    QOp::DrainAbove { th } => {
+                        let _ = q.drain_above(MaxCut::new(u64::from(*th)), |_| {});
+                    }
+                    QOp::CoverUpTo { seg, cov, longest } => {
+                        let _ = q.cover_up_to(SegmentIndex::new(u64::from(*seg)), MaxCut::new(u64::from(*cov)), MaxCut::new(u64::from(*longest)));
+                    }
+                    QOp::DrainAll => q.drain_all(|_| {}),
+                }
+            }
+            // A final clear reports the last post-state to the monitor.
+            q.clear();
+        });
+        if let crate::replica::Guarded::Panicked(m) = r {
+            self.on_panic(Some("C21"), "traversal queue operation", m);
+            return;
+        }
+        if let Some(b) = bad {
+            self.violation("C21", "C21.pop-result", "pop-result", b);
+        }
+        self.stats.bump("c21.direct_drives");
+        self.note(&format!("queue_drive {}", ops.len()));
+    }
+}
